@@ -79,6 +79,7 @@ type vfProdCase struct {
 	CloseMode string               `json:"closeMode"` // close | async
 	Delays    map[string][]int     `json:"delays,omitempty"` // hook point -> delay class per occurrence (mod len)
 	FlushProbe bool                `json:"flushProbe,omitempty"` // C16: before closing, wait until every buffered message was sent (a configured trigger must fire without further input)
+	C12       *vfC12Ctl            `json:"c12,omitempty"`
 	Sync      int                  `json:"sync,omitempty"`   // >0: SyncProducer variant driven from this many goroutines
 	SyncBatch bool                 `json:"syncBatch,omitempty"`
 }
@@ -120,6 +121,9 @@ type vfProdRun struct {
 	syncRets   []vfSyncRet
 	unflushed  []int
 	abandoned  bool
+	stop       *vfStopper
+	eventsEnd  int64 // observable events when the script was over (dry run of C12)
+	closedEarly bool
 }
 
 type vfIntercept struct {
@@ -393,6 +397,9 @@ func (run *vfProdRun) idleWait(cond func() bool) bool {
 	last := int64(-1)
 	lastChange := time.Now()
 	for !cond() {
+		if run.stop.stopped() {
+			return false
+		}
 		p := run.sim.hist.progress() + atomic.LoadInt64(&run.nOutcomes)
 		if p != last || atomic.LoadInt64(&run.sim.pending) > atomic.LoadInt64(&run.sim.held) {
 			last, lastChange = p, time.Now()
@@ -470,6 +477,8 @@ func vfExecProd(c *vfProdCase) *vfProdRun {
 	run.buildMsgs()
 	restoreHooks := vfInstallHooks(c.Delays, run.sim)
 	defer restoreHooks()
+	run.stop = newVfStopper(c.C12, run.sim)
+	defer run.stop.finish()
 	if c.Conf.MaxRequestSize > 0 {
 		old := MaxRequestSize
 		MaxRequestSize = c.Conf.MaxRequestSize
@@ -525,19 +534,23 @@ func vfExecProd(c *vfProdCase) *vfProdRun {
 	var stepProgress int64
 	stuck := false
 	for _, st := range c.Script {
-		if stuck {
+		if stuck || run.stop.stopped() {
 			break
 		}
 		atomic.AddInt64(&stepProgress, 1)
 		switch st.Op {
 		case "send":
-			for i := st.A; i < st.B && i < len(run.msgs) && !stuck; i++ {
+			for i := st.A; i < st.B && i < len(run.msgs) && !stuck && !run.stop.stopped(); i++ {
 				sent := int32(0)
 				msg := run.msgs[i]
 				okc := make(chan struct{})
 				go func() {
-					p.Input() <- msg
-					atomic.StoreInt32(&sent, 1)
+					select {
+					case p.Input() <- msg:
+						atomic.StoreInt32(&sent, 1)
+					case <-run.stop.ch:
+						atomic.StoreInt32(&sent, 2) // the feeder stops: this message is never submitted
+					}
 					close(okc)
 				}()
 				// a send that blocks because the pipeline waits for a response the script still holds at a gate would
@@ -548,13 +561,16 @@ func vfExecProd(c *vfProdCase) *vfProdRun {
 				if atomic.LoadInt32(&sent) == 0 && atomic.LoadInt64(&run.sim.held) > 0 {
 					run.sim.releaseHeld()
 				}
-				if !run.waitQuiescent(func() bool { return atomic.LoadInt32(&sent) == 1 }, func() int64 { return atomic.LoadInt64(&stepProgress) }) {
+				if !run.waitQuiescent(func() bool { return atomic.LoadInt32(&sent) != 0 }, func() int64 { return atomic.LoadInt64(&stepProgress) }) {
 					run.hang = fmt.Sprintf("Input() blocked forever while submitting message %d", i)
 					run.stacks = vfcore.Stacks()
 					stuck = true
 					break
 				}
 				<-okc
+				if atomic.LoadInt32(&sent) == 2 {
+					break
+				}
 				run.submitted = append(run.submitted, i)
 				run.sim.ev(vfEvent{Kind: "submit", N: i}, true)
 			}
@@ -577,6 +593,8 @@ func vfExecProd(c *vfProdCase) *vfProdRun {
 			time.Sleep(time.Duration(st.A) * time.Microsecond)
 		}
 	}
+	run.eventsEnd = vfEventCount(run.sim)
+	run.closedEarly = run.stop.stopped()
 	// the script is over: nothing stays held
 	run.sim.mu.Lock()
 	for _, g := range run.sim.gates {
